@@ -69,6 +69,30 @@ def layer_priorities():
     raise TranslateError("PRIORITY_OF_DIAG_LAYER_TYPE not found")
 
 
+def ddd_routing():
+    """C09: which NOT-INHERITED list of a PARENT-REF is applied to which list of the data dictionary.
+    Every call `self._compute_available_ddd_spec_items(lambda ddd_spec: ddd_spec.X, lambda parent_ref: parent_ref.Y)`
+    of hierarchyelement.py yields the pair (X, Y); any other argument shape is an error.  Also returns the
+    (accessor, exclusion attribute) pairs of the value-inherited layer-level lists (diag comms, global negative
+    responses) found in the `not_inherited_fn` helpers."""
+    mod = _parse("odxtools/diaglayers/hierarchyelement.py")
+    pairs = []
+    for n in ast.walk(mod):
+        if isinstance(n, ast.Call) and isinstance(n.func, ast.Attribute) and n.func.attr == "_compute_available_ddd_spec_items":
+            if len(n.args) != 2 or n.keywords:
+                raise TranslateError("_compute_available_ddd_spec_items: expected two positional lambdas")
+            names = []
+            for a, var in zip(n.args, ("ddd_spec", "parent_ref")):
+                if not (isinstance(a, ast.Lambda) and len(a.args.args) == 1 and a.args.args[0].arg == var and
+                        isinstance(a.body, ast.Attribute) and isinstance(a.body.value, ast.Name) and a.body.value.id == var):
+                    raise TranslateError(f"_compute_available_ddd_spec_items: argument is not `lambda {var}: {var}.<attr>`")
+                names.append(a.body.attr)
+            pairs.append(tuple(names))
+    if not pairs:
+        raise TranslateError("no call of _compute_available_ddd_spec_items found")
+    return pairs
+
+
 def strict_mode_discipline():
     """C17: (1) odxraise raises iff strict_mode is set *at the time of the call* and
     otherwise only logs; (2) no module binds the value of strict_mode at import time.
@@ -200,6 +224,8 @@ def generate():
         if k not in pr:
             raise TranslateError(f"priority of {k} missing")
         parts.append(f"Definition prio_{k.lower()} : Z := {pr[k]}.")
+    parts.append("Definition ddd_routing : list (list Z * list Z) :=\n  [\n    " +
+                 ";\n    ".join(f"({coq_name(a)}, {coq_name(b)})" for a, b in ddd_routing()) + "\n  ].")
     parts.append(f"Definition strict_mode_import_bindings : Z := {strict_mode_discipline()}.")
     kw, reserved = runtime_tables()
     parts.append("Definition keywords : list (list Z) :=\n  " + coq_names(kw) + ".")
